@@ -211,7 +211,7 @@ def run(report):
     from .exprs import And, Assert, Bt, Call, Concat, Cond, Group, JoinL, JoinR, Or, Str, pr
     import subprocess
     import os
-    B = lambda: Bt("[BX]")
+    B = lambda: Bt("BX")
     S = lambda v="k": Str(v)
     shapes = {"bare": B(), "group": Group(B()), "concat-l": Concat(B(), S()), "concat-r": Concat(S(), B()), "join-l": JoinL(B(), S()),
               "join-r": JoinL(S(), B()), "join-unary": JoinR(B()), "and-l": And(B(), S()), "and-r": And(S(), B()), "or-l": Or(B(), S()),
@@ -252,6 +252,11 @@ def run(report):
             ran = [e["argv"][2] if len(e["argv"]) > 2 else e["argv"] for e in C.read_vsh_log(logp)]
             return {"shape": shape, "place": place, "justfile": jf, "argv": argv, "rc": p.returncode, "ran": ran, "stderr": p.stderr.decode("utf-8", "replace")[-300:]}
 
+    # what the dry run SHOWS for an assignment is what Just.Eval computes with dryRun (the backtick as written)
+    mdry = drv.pbatch([{"op": "evaluate", "assigns": [["v", shapes[sh]]], "overrides": [], "backticks": [], "env": [], "ownFirst": True, "dryRun": True}
+                       for sh in shapes])
+    mdry = dict(zip(shapes, mdry))
+
     dcases = [(sh, pl) for sh in shapes for pl in places]
     for r in C.pmap(dry_one, dcases):
         stats["dry_backtick_positions"] = stats.get("dry_backtick_positions", 0) + 1
@@ -259,6 +264,15 @@ def run(report):
             report.failure("c14-dry-run-executes:%s" % r["shape"].split("-")[0], "--dry-run executed %s (a backtick as %s in a %s)" % (r["ran"], r["shape"], r["place"]),
                            {"justfile": r["justfile"], "argv": r["argv"], "observed": r["ran"]})
             break
+        if r["place"] == "assignment":
+            m = mdry[r["shape"]]
+            shown = [l[4:] for l in r["stderr"].split("\n") if l.startswith("[T] ")]
+            mv = dict(m["values"]).get("v") if "values" in m else None
+            if m.get("backticks") or (r["rc"] == 0) != ("values" in m) or (r["rc"] == 0 and shown != [mv]):
+                report.failure("c14-model-dry-evaluation", "--dry-run shows %r for `v := %s`, Just.Eval with dryRun gives %r" % (shown, pr(shapes[r["shape"]]), m),
+                               {"correspondence": "C14 dry-run values vs Just.Eval (dryRun)", "justfile": r["justfile"], "argv": r["argv"], "model": m, "impl": shown}, no_input=True)
+                break
+            stats["dry_values_vs_model"] = stats.get("dry_values_vs_model", 0) + 1
         if r["rc"] != 0 and "ssert" not in r["stderr"]:
             report.failure("c14-dry-run-failed", "--dry-run of a valid justfile failed: " + r["stderr"][-150:],
                            {"justfile": r["justfile"], "argv": r["argv"], "stderr": r["stderr"]}, no_input=True)
